@@ -47,6 +47,8 @@ def Cls.sig : Cls → Option (Nat × Nat)
   | .uB => some (0, 0)
   | .uC => some (0, 0)
   | .uD => some (0, 0)
+  | .callable => some (0, 0)
+  | .func => some (2, 5)
   | _ => none
 
 /-! ## literal values -/
